@@ -1418,6 +1418,13 @@ func genC17(g *G, sc *Scenario, tier string, seed uint64) {
 		return
 	}
 	sc.Ops = append(sc.Ops, Op{K: "batch", DS: "srcA", Ents: ents})
+	if !killed && !big && jobType == "incremental" && intOf(spec, "rejectTimes") == 1 && len(rej) > 0 && g.P(0.5) {
+		// the source corrects an entity the sink turns down once: the run meets the id twice, the first time rejected,
+		// the second time acceptable
+		id := fmt.Sprint(rej[0])
+		sc.Ops = append(sc.Ops, Op{K: "batch", DS: "srcA", Ents: []Ent{{"id": id, "props": map[string]any{MkS + "n": float64(1000), MkS + "corrected": true}, "refs": map[string]any{}}}})
+		sc.Note += " corrected-entity"
+	}
 	sc.Ops = append(sc.Ops, Op{K: "tick", S: "job1", M: spec})
 	if !killed && g.P(0.3) {
 		// a later tick with nothing rejected: must succeed and must not re-run
